@@ -48,6 +48,10 @@ type c04eG struct {
 	observer *ecdsa.PrivateKey
 	variant  string
 	nSig     map[string]int
+	// boxSubs: the sub-tx list every box was BUILT from (e.box), keyed by the box's tx hash: tokens are made from
+	// it, not from what types.GetBox decodes (fed-fact audit: a decoder that loses entries would hide them from
+	// guard, verifier and mirror alike)
+	boxSubs map[common.Hash]types.Transactions
 }
 
 // c04eMaxPerSig: main.go keeps only the first 200 reports of a run; a handful per signature keeps room for every class.
@@ -114,10 +118,31 @@ func (g *c04eG) tok1(tx *types.Transaction) string {
 // tok renders a tx as tok1[/tok1 of every sub-tx]
 func (g *c04eG) tok(tx *types.Transaction) string {
 	s := g.tok1(tx)
-	for _, st := range c04eSubs(tx) {
+	for _, st := range g.subsOf(tx) {
 		s += "/" + g.tok1(st)
 	}
 	return s
+}
+
+// subsOf: the sub-tx list of a box by construction; what GetBox decodes is only cross-checked against it.
+func (g *c04eG) subsOf(tx *types.Transaction) types.Transactions {
+	if tx.Type() != params.BoxTx {
+		return nil
+	}
+	built, ok := g.boxSubs[tx.Hash()]
+	decoded := c04eSubs(tx)
+	if !ok {
+		g.c.Count("e:fed-fact:box-not-built-by-harness")
+		return decoded
+	}
+	same := len(built) == len(decoded)
+	for i := 0; same && i < len(built); i++ {
+		same = built[i].Hash() == decoded[i].Hash()
+	}
+	if !same {
+		g.fail("c04/fed-fact/box-subs", fmt.Sprintf("box %s was built from %d sub-txs, types.GetBox decodes %d (or other ones)", tx.Hash().Hex()[:10], len(built), len(decoded)), nil)
+	}
+	return built
 }
 
 func (g *c04eG) rcpt() common.Address {
@@ -488,7 +513,9 @@ func (e *c04eEnv) box(by *ecdsa.PrivateKey, exp uint64, subs ...*types.Transacti
 	for _, s := range subs {
 		cp = append(cp, c04eWire(s))
 	}
-	return txBox(by, cp, TxOpt{Exp: exp, Msg: e.g.msg()})
+	bx := txBox(by, cp, TxOpt{Exp: exp, Msg: e.g.msg()})
+	e.g.boxSubs[bx.Hash()] = cp
+	return bx
 }
 
 func c04eContains(b *types.Block, h common.Hash) int {
@@ -556,7 +583,7 @@ func (e *c04eEnv) run(name string, f func()) (ok bool) {
 }
 
 func c04Engine(c *Ctx) {
-	g := &c04eG{c: c, txIDs: map[common.Hash]int{}, ctIDs: map[common.Hash]int{}, observer: detKey("c04e-observer"), nSig: map[string]int{}}
+	g := &c04eG{c: c, boxSubs: map[common.Hash]types.Transactions{}, txIDs: map[common.Hash]int{}, ctIDs: map[common.Hash]int{}, observer: detKey("c04e-observer"), nSig: map[string]int{}}
 	reps := c.N/10 + 1
 	if reps > 45 {
 		reps = 45
@@ -602,6 +629,7 @@ func c04Engine(c *Ctx) {
 				{"dup-in-block", e.scDupInBlock},
 				{"box-in-block", e.scBoxInBlock},
 				{"across", e.scAcross},
+				{"box3", e.scBox3},
 				{"window", e.scWindow},
 				{"window-box", e.scWindowBox},
 				{"fork", e.scFork},
@@ -629,6 +657,7 @@ func c04Engine(c *Ctx) {
 				f    func()
 			}{
 				{"prune", e.scPrune},
+				{"far-expiration", e.scFarExpiration},
 				{"prune-boundary", e.scPruneBoundary},
 				{"restart", e.scRestart},
 			} {
@@ -1110,6 +1139,135 @@ func (e *c04eEnv) scAcross() {
 			}
 		}
 	}
+}
+
+// a box of three sub-txs; the LAST one replayed standalone in a child block must be refused
+func (e *c04eEnv) scBox3() {
+	c, rnd := e.g.c, e.g.c.Rnd
+	base := e.base()
+	t1 := base.Time() + 1 + uint32(rnd.Intn(25))
+	t2 := t1 + uint32(rnd.Intn(100))
+	exp := uint64(t2) + uint64(rnd.Intn(1000))
+	a, b2, last := e.pay(exp), e.pay(exp), e.pay(exp)
+	bx := e.box(e.otherUser(last.from), uint64(t2), a.tx, b2.tx, last.tx)
+	b1 := e.mustInsert(base, t1, bx)
+	r, _ := e.build(b1, t2, last.tx)
+	if c04eContains(r, last.tx.Hash()) == 0 {
+		c.Count("e:box3:miner-dropped")
+		e.insert(r)
+		return
+	}
+	v := e.insert(r)
+	c.Count("e:box3:last-sub-standalone:" + v)
+	if v == "accept" {
+		k := e.execs(r, last.rcpt, last.amount)
+		e.g.fail("c04/replayed/across-blocks/box3-last-sub", fmt.Sprintf("the third sub-tx of a box in block time %d is accepted again standalone in the child block time %d: credited %d x %s", t1, t2, k, last.amount),
+			e.witness(map[string]interface{}{"t1": t1, "t2": t2, "exp": exp, "execs": k}))
+	} else if k := e.execs(b1, last.rcpt, last.amount); k != 1 {
+		c.Count(fmt.Sprintf("e:box3:first-execs-%d", k))
+	}
+}
+
+// c04eInWindow: VerifyTxBody's time rule in the harness's own unsigned arithmetic.
+func c04eInWindow(exp uint64, t uint32) bool {
+	return exp >= uint64(t) && exp-uint64(t) <= uint64(c04eLife)
+}
+
+// expiration boundary values over the whole uint64 range (top level and as box sub-tx): the window must refuse
+// everything beyond t+1800, or the tx outlives the guard's memory: first inclusion, the stable block advances by
+// more than 30 min + a bucket (the guard forgets the block), the same bytes again.
+func (e *c04eEnv) scFarExpiration() {
+	c, rnd := e.g.c, e.g.c.Rnd
+	type cand struct {
+		name string
+		exp  func(t uint64) uint64
+	}
+	all := []cand{
+		{"t+1801", func(t uint64) uint64 { return t + 1801 }},
+		{"t+2h", func(t uint64) uint64 { return t + 7200 }},
+		{"2^31", func(t uint64) uint64 { return 1 << 31 }},
+		{"2^32", func(t uint64) uint64 { return 1 << 32 }},
+		{"2^32+t", func(t uint64) uint64 { return 1<<32 + t }},
+		{"2^62", func(t uint64) uint64 { return 1 << 62 }},
+		{"2^63-1", func(t uint64) uint64 { return 1<<63 - 1 }},
+		{"2^63", func(t uint64) uint64 { return 1 << 63 }},
+		{"2^63+t-1", func(t uint64) uint64 { return 1<<63 + t - 1 }},
+		{"2^63+t", func(t uint64) uint64 { return 1<<63 + t }},
+		{"2^63+t+1801", func(t uint64) uint64 { return 1<<63 + t + 1801 }},
+		{"2^64-1", func(t uint64) uint64 { return ^uint64(0) }},
+	}
+	// always the two ends of the upper half, plus a few random others
+	picks := []cand{all[len(all)-1], all[9], all[rnd.Intn(len(all))], all[rnd.Intn(len(all))]}
+	for _, cd := range picks {
+		base := e.base()
+		t1 := base.Time() + 1 + uint32(rnd.Intn(70))
+		exp := cd.exp(uint64(t1))
+		boxed := rnd.Intn(3) == 0
+		p := e.pay(exp)
+		first := p.tx
+		if boxed {
+			first = e.box(e.otherUser(p.from), uint64(t1)+uint64(rnd.Intn(1801)), p.tx) // the box itself is inside the window
+		}
+		cls := cd.name
+		if boxed {
+			cls += ":boxed"
+		}
+		inWin := c04eInWindow(exp, t1)
+		// (1) the body check itself, against own arithmetic (no model, no engine)
+		bodyOK := c04eWire(first).VerifyTxBody(nodeChainID, uint64(t1), true) == nil
+		if bodyOK && !inWin {
+			e.g.fail("c04/window-accepts-far-expiration", fmt.Sprintf("VerifyTxBody(blockTime %d) accepts a tx (boxed=%v) with expiration %d (%s): %d s ahead as uint64, max life time %d", t1, boxed, exp, cd.name, exp-uint64(t1), c04eLife),
+				map[string]interface{}{"where": "VerifyTxBody", "blockTime": t1, "exp": exp, "class": cd.name, "boxed": boxed, "txJSON": c04eJSON(p.tx)})
+		}
+		// (2) the engine
+		b, _ := e.build(base, t1, first)
+		if c04eContains(b, first.Hash()) == 0 {
+			c.Count("e:far-exp:" + cls + ":miner-dropped")
+			e.insert(b)
+			continue
+		}
+		v := e.insert(b)
+		c.Count("e:far-exp:" + cls + ":" + v)
+		if v != "accept" {
+			continue
+		}
+		if inWin {
+			continue
+		}
+		e.g.fail("c04/window-accepts-far-expiration", fmt.Sprintf("InsertBlock accepts a block stamped %d carrying a tx (boxed=%v) with expiration %d (%s): %d s ahead as uint64, max life time %d; executed %d time(s)", t1, boxed, exp, cd.name, exp-uint64(t1), c04eLife, e.execs(b, p.rcpt, p.amount)),
+			e.witness(map[string]interface{}{"where": "InsertBlock", "blockTime": t1, "exp": exp, "class": cd.name, "boxed": boxed, "txJSON": c04eJSON(p.tx)}))
+		// (3) the consequence: empty stable blocks, one a minute, until the guard has forgotten the block; then the same bytes
+		parent := b
+		tm := t1
+		for i := 0; i < 34; i++ {
+			tm += 60 + uint32(rnd.Intn(5))
+			parent = e.mustInsert(parent, tm)
+			e.stabilise(parent)
+		}
+		tr := tm + 1 + uint32(rnd.Intn(20))
+		r, _ := e.build(parent, tr, p.tx)
+		if c04eContains(r, p.tx.Hash()) == 0 {
+			c.Count("e:far-exp:" + cls + ":replay-miner-dropped")
+			e.insert(r)
+			continue
+		}
+		v2 := e.insert(r)
+		c.Count("e:far-exp:" + cls + ":replay-" + v2)
+		if v2 == "accept" {
+			k := e.execs(r, p.rcpt, p.amount)
+			e.g.fail("c04/replayed/after-guard-pruned", fmt.Sprintf("tx %s (expiration %d = %s, boxed first=%v) executed in block time %d; %d s and 34 stable blocks later (stable time %d, the guard has dropped that block) the same bytes are accepted again in a block stamped %d: recipient credited %d x %s",
+				p.tx.Hash().Hex()[:10], exp, cd.name, boxed, t1, tm-t1, e.n.BC.StableBlock().Time(), tr, k, p.amount),
+				e.witness(map[string]interface{}{"t1": t1, "exp": exp, "class": cd.name, "tr": tr, "execs": k, "txJSON": c04eJSON(p.tx)}))
+		}
+	}
+}
+
+func c04eJSON(tx *types.Transaction) string {
+	b, err := tx.MarshalJSON()
+	if err != nil {
+		return "err:" + err.Error()
+	}
+	return string(b)
 }
 
 // ---- (f): the expiry window --------------------------------------------------------------
